@@ -17,7 +17,14 @@ import (
 // splitmix64: the single PRNG stream every generator draws from (seeded by VERIF_SEED).
 type vrng struct{ s uint64 }
 
-func newRng(seed uint64) *vrng { return &vrng{s: seed*0x9E3779B97F4A7C15 + 0x1234567} }
+// newRng: the initial state is a hash of the seed (neighbouring seeds must not yield shifted copies of one stream).
+func newRng(seed uint64) *vrng {
+	z := seed + 0x1234567
+	z = (z ^ (z >> 30)) * 0xBF58476D1CE4E5B9
+	z = (z ^ (z >> 27)) * 0x94D049BB133111EB
+	z ^= z >> 31
+	return &vrng{s: z*0xD6E8FEB86659FD93 + seed}
+}
 func (r *vrng) u64() uint64 {
 	r.s += 0x9E3779B97F4A7C15
 	z := r.s
